@@ -734,7 +734,7 @@ fn verif_c13() {
         rep.finish();
         return;
     }
-    let depth = if thorough { 5 } else { 4 };
+    let depth = if thorough { 6 } else { 4 };
     rep.rule(&format!(
         "BFS over the real Mempool: every sequence of <= {depth} events from {{insert(10 transactions of 2 accounts, \
          nonces 0..2, cheap / expensive / sudo-group; current{} chain view), remove_tx_invalid(each), chain nonce +1, \
